@@ -1149,6 +1149,22 @@ impl World {
             }
         }
 
+        // ---- C12 lower bound for operations that may grow in several steps (extend, multi-piece write!): every
+        // growth step lands at >= 1.5x the length it started from, hence >= 1.5x the length before the call
+        if let (Some(a), Some(b), Some(ml), true, true) = (pre_t.as_ref(), post_t, model_len_after, real_ok, matches!(op, Op::Extend { .. } | Op::Write { .. } | Op::WriteArg { .. })) {
+            let room = if a.kind == Kind::Inline { 16 } else { a.cap };
+            let lied = matches!(op, Op::Extend { it, .. } if it.hint.is_some());
+            if !lied && ml > room && b.kind == Kind::Heap && additional_of(op, r).is_none() {
+                let lower = a.len + a.len / 2;
+                ctx.tag("growth_event");
+                ctx.growth.push((a.kind, a.len, ml - a.len));
+                ctx.eval("C12.lower");
+                if b.cap < lower {
+                    f.push(Failure::new("C12.lower", format!("{name}: {} string of len {} grew to len {ml} with capacity {}, below len + len/2 = {lower}", a.kind.name(), a.len, b.cap)));
+                }
+            }
+        }
+
         // ---- C13 shrinking
         if let (true, Some(a), Some(b), true) = (matches!(op, Op::ShrinkTo { .. } | Op::ShrinkToFit { .. }), pre_t.as_ref(), post_t, real_ok) {
             let m = if matches!(op, Op::ShrinkToFit { .. }) { 0 } else { r.size };
@@ -1241,6 +1257,29 @@ impl World {
         }
         if x.cmp(y) != mx.as_str().cmp(my.as_str()) || x.partial_cmp(y) != mx.as_str().partial_cmp(my.as_str()) {
             bad("C17.ord", format!("cmp({mx:?}, {my:?}): LeanString {:?}, str {:?}", x.cmp(y), mx.cmp(my)));
+        }
+        // comparison operators
+        let ops_l = [x < y, x <= y, x > y, x >= y, x != y];
+        let ops_s = [mx < my, mx <= my, mx > my, mx >= my, mx != my];
+        if ops_l != ops_s {
+            bad("C17.ord", format!("operators <, <=, >, >=, != on {mx:?} and {my:?}: LeanString {ops_l:?}, str {ops_s:?}"));
+        }
+        // a str argument that aliases the string's own text (prefixes and suffixes of as_str())
+        {
+            let own = x.as_str();
+            let bs = crate::world::boundaries(mx.as_str());
+            for &k in [bs[0], bs[bs.len() / 2], bs[bs.len().saturating_sub(2).min(bs.len() - 1)], bs[bs.len() - 1]].iter() {
+                let (pre, suf) = (&own[..k], &own[k..]);
+                let want_pre = mx[..k] == *mx.as_str();
+                let want_suf = mx[k..] == *mx.as_str();
+                let got = [*x == *pre, *pre == *x, *x == pre, pre == *x, *x == *suf, *suf == *x];
+                if got != [want_pre, want_pre, want_pre, want_pre, want_suf, want_suf] {
+                    bad("C17.eq_foreign", format!("{mx:?} compared with the prefix/suffix of its own text at {k}: {got:?}"));
+                }
+                if x.as_str().cmp(pre) != mx.as_str().cmp(&mx[..k]) {
+                    bad("C17.ord", format!("{mx:?} ordered against its own prefix of {k} bytes"));
+                }
+            }
         }
         if hash_str_of(x) != hash_str(mx) || fnv_hash(x) != fnv_hash(mx.as_str()) || word_hash(x) != word_hash(mx.as_str()) {
             bad("C17.hash", format!("hash of {mx:?} differs from the hash of the same str (SipHash, FNV, or a word-at-a-time hasher)"));
